@@ -22,24 +22,47 @@ Section CacheProofs.
   Lemma coherent_init t : coherent (c_init t).
   Proof. unfold coherent, c_init. cbn. repeat split; left; reflexivity. Qed.
 
+  Lemma coherent_add s t : coherent (c_add s t).
+  Proof. unfold coherent, c_add. cbn. repeat split; left; reflexivity. Qed.
+
   Lemma fresh_raw_coherent s : coherent s -> fresh_raw s = serialize (c_cur s).
   Proof.
     intros (_ & [Ho|Ho] & _); unfold fresh_raw, outs_blob, serialize; rewrite Ho; reflexivity.
   Qed.
 
+  Lemma outs_blob_coherent s : coherent s -> outs_blob s = ser_outs (tx_outs (c_cur s)).
+  Proof. intros (_ & [Ho|Ho] & _); unfold outs_blob; rewrite Ho; reflexivity. Qed.
+
   Lemma read_raw_coherent s : coherent s ->
     fst (read_raw s) = serialize (c_cur s) /\ coherent (snd (read_raw s)) /\
     c_cur (snd (read_raw s)) = c_cur s.
   Proof.
-    intros C. pose proof (fresh_raw_coherent s C) as F. destruct C as (Cr & Co & Ci).
+    intros C. pose proof (fresh_raw_coherent s C) as F. pose proof (outs_blob_coherent s C) as B.
+    destruct C as (Cr & Co & Ci & Cs).
     unfold read_raw. destruct (c_raw s) as [r|] eqn:R.
     - destruct Cr as [Cr|Cr]; [discriminate|]. inversion Cr; subst. cbn [fst snd].
       split; [reflexivity|]. split; [|reflexivity]. unfold Model.C05Cache.coherent. rewrite R.
-      split; [right; reflexivity|]. split; assumption.
+      split; [right; reflexivity|]. split; [assumption|]. split; assumption.
     - cbn [fst snd]. split; [exact F|]. split; [|reflexivity].
-      unfold Model.C05Cache.coherent. cbn [c_raw c_outs c_id c_cur]. rewrite F.
-      split; [right; reflexivity|]. split; [|exact Ci].
-      right. unfold outs_blob. destruct Co as [Co|Co]; rewrite Co; reflexivity.
+      unfold Model.C05Cache.coherent. cbn [c_raw c_outs c_id c_cur c_sans c_seg]. rewrite F, B.
+      split; [right; reflexivity|]. split; [right; reflexivity|]. split; [exact Ci | exact Cs].
+  Qed.
+
+  (* raw_sans_segwit of a coherent object is the (witness-free) serialisation of its fields, flag or not *)
+  Lemma read_sans_coherent s : coherent s ->
+    fst (read_sans s) = serialize (c_cur s) /\ coherent (snd (read_sans s)) /\
+    c_cur (snd (read_sans s)) = c_cur s.
+  Proof.
+    intros C. unfold read_sans. destruct (c_seg s) eqn:G; [|apply read_raw_coherent; exact C].
+    pose proof (fresh_raw_coherent s C) as F. pose proof (outs_blob_coherent s C) as B.
+    destruct C as (Cr & Co & Ci & Cs).
+    destruct (c_sans s) as [r|] eqn:R.
+    - destruct Cs as [Cs|Cs]; [discriminate|]. inversion Cs; subst. cbn [fst snd].
+      split; [reflexivity|]. split; [|reflexivity]. unfold Model.C05Cache.coherent. rewrite R.
+      split; [assumption|]. split; [assumption|]. split; [assumption | right; reflexivity].
+    - cbn [fst snd]. split; [exact F|]. split; [|reflexivity].
+      unfold Model.C05Cache.coherent. cbn [c_raw c_outs c_id c_cur c_sans c_seg]. rewrite F, B.
+      split; [exact Cr|]. split; [right; reflexivity|]. split; [exact Ci | right; reflexivity].
   Qed.
 
   Lemma read_id_coherent s : coherent s ->
@@ -47,23 +70,25 @@ Section CacheProofs.
     c_cur (snd (read_id s)) = c_cur s.
   Proof.
     intros C. unfold Model.C05Cache.read_id. destruct (c_id s) as [i|] eqn:I.
-    - destruct C as (Cr & Co & [Ci|Ci]); [congruence|]. rewrite I in Ci. inversion Ci; subst.
+    - destruct C as (Cr & Co & [Ci|Ci] & Cs); [congruence|]. rewrite I in Ci. inversion Ci; subst.
       cbn [fst snd]. split; [reflexivity|]. split; [|reflexivity].
-      unfold Model.C05Cache.coherent. rewrite I. split; [exact Cr|]. split; [exact Co | right; reflexivity].
-    - destruct (read_raw_coherent s C) as (F & (Cr & Co & _) & E).
-      destruct (read_raw s) as [r s'] eqn:RR. cbn [fst snd] in *. subst r.
+      unfold Model.C05Cache.coherent. rewrite I. split; [exact Cr|]. split; [exact Co|].
+      split; [right; reflexivity | exact Cs].
+    - destruct (read_sans_coherent s C) as (F & (Cr & Co & _ & Cs) & E).
+      destruct (read_sans s) as [r s'] eqn:RR. cbn [fst snd] in *. subst r.
       split; [reflexivity|]. split; [|exact E].
-      unfold Model.C05Cache.coherent. cbn [c_raw c_outs c_id c_cur]. rewrite E in *.
-      split; [exact Cr|]. split; [exact Co | right; reflexivity].
+      unfold Model.C05Cache.coherent. cbn [c_raw c_outs c_id c_cur c_sans c_seg]. rewrite E in *.
+      split; [exact Cr|]. split; [exact Co|]. split; [right; reflexivity | exact Cs].
   Qed.
 
   Lemma cstep_coherent s op : is_edit op = false -> coherent s -> coherent (fst (cstep s op)).
   Proof.
     intros Hop C. destruct op; cbn [Model.C05Cache.cstep is_edit] in *; try discriminate.
-    - apply coherent_init.
+    - apply coherent_add.
     - apply coherent_reset.
     - destruct (read_raw_coherent s C) as (_ & C' & _). destruct (read_raw s). exact C'.
     - destruct (read_id_coherent s C) as (_ & C' & _). destruct (read_id s). exact C'.
+    - destruct (read_sans_coherent s C) as (_ & C' & _). destruct (read_sans s). exact C'.
   Qed.
 
   (* as long as nothing is edited in place without a reset, the object stays coherent, and a
@@ -108,6 +133,29 @@ Section CacheProofs.
       cbn [Model.C05Cache.crun Model.C05Cache.cstep]. cbn [fst]. apply coherent_reset. }
     split; [apply read_raw_coherent; exact C | apply read_id_coherent; exact C].
   Qed.
+  (* a PARSED object (any given bytes cached as _raw, segwit flag set or not): after the first
+     add_inputs / add_outputs / _reset, and as long as nothing is edited in place without a reset,
+     raw, raw_sans_segwit and id are those of the fields the object holds -- in particular the id
+     read before the change (which filled _raw_sans_segwit) does not survive it *)
+  Theorem parsed_reads_current_after_change t raw seg before op after :
+    (op = OReset \/ exists t', op = OAdd t') ->
+    forallb (fun op => negb (is_edit op)) after = true ->
+    let s := fst (crun (c_parsed t raw seg) (before ++ op :: after)) in
+    fst (read_raw s) = serialize (c_cur s) /\ fst (read_sans s) = serialize (c_cur s) /\
+    fst (read_id s) = idof (serialize (c_cur s)).
+  Proof.
+    intros Hop H s. assert (C : coherent s).
+    { subst s. rewrite crun_app. destruct (crun (c_parsed t raw seg) before) as [s1 o1].
+      cbn [Model.C05Cache.crun]. 
+      assert (C1 : coherent (fst (cstep s1 op))).
+      { destruct Hop as [->|[t' ->]]; cbn [Model.C05Cache.cstep fst];
+          [apply coherent_reset | apply coherent_add]. }
+      destruct (cstep s1 op) as [s2 o2]. cbn [fst] in C1.
+      pose proof (crun_coherent after s2 H C1) as C2.
+      destruct (crun s2 after) as [s3 o3]. cbn [fst] in *. exact C2. }
+    split; [apply read_raw_coherent; exact C|].
+    split; [apply read_sans_coherent; exact C | apply read_id_coherent; exact C].
+  Qed.
 End CacheProofs.
 
 (* without the trailing reset an interleaved read leaves the pre-signature serialisation cached *)
@@ -126,3 +174,13 @@ Lemma partial_add_without_reset_refuted :
   let s'' := fst (crun (fun b => b) (c_init sample_tx) [OReadRaw; OAdd sample_tx2]) in
   fst (read_raw s'') = serialize (c_cur s'').
 Proof. split; vm_compute; [discriminate | reflexivity]. Qed.
+
+(* a parsed segwit object whose id was read, then changed WITHOUT clearing _raw_sans_segwit (an edit that
+   keeps the caches, then only raw/id cleared is not expressible; the nearest history: id read, edit, no reset)
+   reads the old stripped bytes *)
+Lemma parsed_segwit_stale_without_reset_refuted :
+  let s' := fst (crun (fun b => b) (c_parsed sample_tx (serialize sample_tx) true) [OReadId; OEdit sample_tx2]) in
+  fst (read_sans s') <> serialize (c_cur s') /\
+  let s'' := fst (crun (fun b => b) (c_parsed sample_tx (serialize sample_tx) true) [OReadId; OAdd sample_tx2]) in
+  fst (read_sans s'') = serialize (c_cur s'') /\ fst (read_id (fun b => b) s'') = rev (serialize (c_cur s'')).
+Proof. split; [|split]; vm_compute; [discriminate | reflexivity | reflexivity]. Qed.
